@@ -172,6 +172,7 @@ pub struct Overrides {
     pub repl: Option<bool>,
     pub cap: Option<String>, // "min" | "min1" | "query"
     pub twins: bool,
+    pub manual: bool, // C09: drive a twin converter by the documented manual procedure and log its observation
     pub latin1: bool,
     pub modes: Option<Vec<String>>,
     pub thin: usize, // keep one history in `thin` (0/1 = all)
